@@ -535,15 +535,20 @@ pub fn corpus(sink: &mut Sink, st: &mut Streams) {
     let q = vec![Sg::Range(0, 10), second.clone()];
     case_seqop(sink, st, &q, &SeqOp::MaskToOffsets(Some(mult5.clone()), None), true);
     case_seqop(sink, st, &q, &SeqOp::MaskToOffsets(None, Some(mult5.clone())), true);
-    for alt in [Sg::Holes(100, 200, EA::natural(&(100..200).filter(|x| x % 3 == 0 && *x != 100 && *x != 199).collect::<Vec<_>>())), Sg::Sorted(EA::natural(&holey))] {
-        // same ids, other representations, not first
-        let alt = if let Sg::Holes(..) = alt { Sg::Holes(101, 199, EA::natural(&(101..199).filter(|x| x % 3 == 0).collect::<Vec<_>>())) } else { alt };
-        let q = vec![Sg::Range(0, 10), alt.clone(), Sg::Range(300, 305), second.clone()];
-        if nodup(&seq_ids(&q)) {
-            case_seqop(sink, st, &q, &SeqOp::MaskToOffsets(Some(mult5.clone()), None), true);
-        }
-        let q = vec![Sg::Range(0, 10), alt];
+    // the same ids in the other representations, not first in the sequence
+    let holes_inside: Vec<u64> = (100..200).filter(|x| x % 3 == 0 && *x != 198).collect();
+    let alts = vec![
+        Sg::Holes(100, 200, EA::natural(&holes_inside)),
+        Sg::Holes(100, 200, EA::U64(holes_inside.clone())),
+        Sg::Sorted(EA::natural(&holey)),
+        Sg::Array(EA::natural(&holey)),
+    ];
+    for alt in alts {
+        let q = vec![Sg::Range(0, 10), alt.clone()];
+        case_seqop(sink, st, &q, &SeqOp::MaskToOffsets(Some(mult5.clone()), None), true);
         case_seqop(sink, st, &q, &SeqOp::MaskToOffsets(Some(mult5.clone()), Some(vec![105, 110, 3])), true);
+        let q = vec![Sg::Range(300, 310), Sg::Range(7, 7), alt, Sg::Range(0, 10)];
+        case_seqop(sink, st, &q, &SeqOp::MaskToOffsets(None, Some(mult5.clone())), true);
     }
     // F15 consequence: an empty Range(0..0) segment left by delete must not report offset 0
     let q = vec![Sg::Range(0, 0), Sg::Range(0, 4)];
